@@ -1,7 +1,7 @@
 (** Facts about the script layer (Model/Lua.v, Model/RunLua.v): UTF-8 / lossy decoding,
     the two value conversions and the exact domain on which they round-trip, call aborts /
     pcall continues / effects persist, one script = one step of the server, EVALSHA =
-    EVAL of the cached source (in database 0 only), KEYS / ARGV bytes, the sandbox tables. *)
+    EVAL of the cached source, KEYS / ARGV bytes, the sandbox tables. *)
 From Ferrous Require Import Base.Bytes Generated Model.Resp Model.Types Model.Glob Model.Utf8 Model.Strings
   Model.Lists Model.ZSets Model.Streams Model.Scan Model.Exec Model.Lua Model.Server Model.Conn Model.RunBase
   Model.RunSrv Model.RunLua Proofs.BytesFacts Proofs.RespFacts Proofs.ExecFacts.
@@ -228,7 +228,7 @@ Proof.
   - exfalso. unfold call_cmd in E.
     destruct (marshal_args _) as [[|nm r]|]; try discriminate.
     destruct (blocked (upper nm)); [discriminate|].
-    destruct (exec_run now d _ None) as [rp d'']. inversion E. now apply (pcall_never_aborts rp).
+    destruct (exec_run now _ _ None) as [rp d'']. inversion E. now apply (pcall_never_aborts rp).
 Qed.
 
 (** a refused (blocked) command does not reach the executor and changes nothing *)
@@ -262,21 +262,22 @@ Proof.
   apply IH. lia.
 Qed.
 
-(** EVAL handled by process_normal_command: the reply and the selected database are those
-    of the script run to completion; every other database, every connection (selected
-    database, MULTI queue, watches) and the password are untouched.  Since commands of other
-    clients are other events of the transition system, none of them can observe a state
-    between two calls of the script. *)
-Theorem script_one_step now s c dbi parts nm :
+(** EVAL handled by process_normal_command: after the lazy expiry every command starts with
+    (state [s1]), the reply and the selected database are those of the script run to
+    completion; every other database, every connection (selected database, MULTI queue,
+    watches) and the password are untouched.  Since commands of other clients are other
+    events of the transition system, none of them can observe a state between two calls of
+    the script. *)
+Lemma script_one_step_d now s c dbi parts nm :
   upper nm = bs "EVAL" -> parts = FBulk nm :: tl parts ->
   let r := h_eval now (get_db s dbi) parts in
-  let s' := snd (normal_command now s c dbi parts None) in
-  fst (normal_command now s c dbi parts None) = fst r /\
+  let s' := snd (dispatch_command now s c dbi parts None) in
+  fst (dispatch_command now s c dbi parts None) = fst r /\
   s_conns s' = s_conns s /\ s_password s' = s_password s /\
   (forall j, j <> Z.to_nat dbi -> nth j (s_dbs s') empty_db = nth j (s_dbs s) empty_db) /\
   ((Z.to_nat dbi < length (s_dbs s))%nat -> get_db s' dbi = snd r).
 Proof.
-  intros Hn Hp. cbv zeta. rewrite Hp. unfold normal_command. rewrite Hn.
+  intros Hn Hp. cbv zeta. rewrite Hp. unfold dispatch_command. rewrite Hn.
   repeat match goal with
   | |- context [beq (bs ?a) (bs ?b)] =>
       let v := eval vm_compute in (beq (bs a) (bs b)) in change (beq (bs a) (bs b)) with v
@@ -291,17 +292,51 @@ Proof.
   all: try (intros j Hj; now apply nth_list_set_other, not_eq_sym).
   all: intros Hl; now apply nth_list_set_same.
 Qed.
+Lemma list_set_length {A} (l : list A) : forall i x, length (list_set l i x) = length l.
+Proof. induction l as [|y r IH]; intros [|i] x; cbn [list_set length]; try reflexivity. now rewrite IH. Qed.
+Lemma lazy_expire_shape now s dbi name parts :
+  let s1 := lazy_expire now s dbi name parts in
+  s_conns s1 = s_conns s /\ s_password s1 = s_password s /\ length (s_dbs s1) = length (s_dbs s) /\
+  (forall j, j <> Z.to_nat dbi -> nth j (s_dbs s1) empty_db = nth j (s_dbs s) empty_db).
+Proof.
+  cbv zeta. unfold lazy_expire. destruct lazy_expiry_before_dispatch; [|repeat split; reflexivity].
+  destruct (expire_before now (get_db s dbi) name parts) as [d1 removed].
+  cbn [set_trk set_db s_conns s_password s_dbs]. repeat split; try reflexivity.
+  - apply list_set_length.
+  - intros j Hj. now apply nth_list_set_other, not_eq_sym.
+Qed.
+Theorem script_one_step now s c dbi parts nm :
+  upper nm = bs "EVAL" -> parts = FBulk nm :: tl parts ->
+  let s1 := lazy_expire now s dbi (bs "EVAL") parts in
+  let r := h_eval now (get_db s1 dbi) parts in
+  let s' := snd (normal_command now s c dbi parts None) in
+  fst (normal_command now s c dbi parts None) = fst r /\
+  s_conns s' = s_conns s /\ s_password s' = s_password s /\
+  (forall j, j <> Z.to_nat dbi -> nth j (s_dbs s') empty_db = nth j (s_dbs s) empty_db) /\
+  ((Z.to_nat dbi < length (s_dbs s))%nat -> get_db s' dbi = snd r).
+Proof.
+  intros Hn Hp. cbv zeta.
+  assert (E : normal_command now s c dbi parts None =
+              dispatch_command now (lazy_expire now s dbi (bs "EVAL") parts) c dbi parts None).
+  { rewrite Hp at 1. unfold normal_command. rewrite Hn. rewrite <- Hp. reflexivity. }
+  rewrite E. set (s1 := lazy_expire now s dbi (bs "EVAL") parts).
+  destruct (script_one_step_d now s1 c dbi parts nm Hn Hp) as (H1 & H2 & H3 & H4 & H5).
+  destruct (lazy_expire_shape now s dbi (bs "EVAL") parts) as (L1 & L2 & L3 & L4). fold s1 in L1, L2, L3, L4.
+  split; [exact H1|]. split; [rewrite H2; exact L1|]. split; [rewrite H3; exact L2|]. split.
+  - intros j Hj. rewrite (H4 j Hj). apply L4. exact Hj.
+  - intros Hl. apply H5. rewrite L3. exact Hl.
+Qed.
 
 (** ---- EVALSHA ---- *)
-(** with database 0 selected, EVALSHA of a cached script is EVAL of its source *)
-Theorem evalsha_eq_eval t s c ca nm sha nk rest src :
+(** EVALSHA of a cached script is EVAL of its source, in the database the connection has selected *)
+Theorem evalsha_eq_eval t s c dbi ca nm sha nk rest src :
   upper nm = bs "EVALSHA" -> utf8_valid sha = true -> alookup sha ca = Some src ->
-  let r1 := h_evalsha t s c 0 ca (FBulk nm :: FBulk sha :: nk :: rest) in
-  let r2 := normal_command t s c 0 (FBulk (bs "EVAL") :: FBulk src :: nk :: rest) None in
+  let r1 := h_evalsha t s c dbi ca (FBulk nm :: FBulk sha :: nk :: rest) in
+  let r2 := normal_command t s c dbi (FBulk (bs "EVAL") :: FBulk src :: nk :: rest) None in
   fst r1 = fst r2 /\ s_dbs (snd r1) = s_dbs (snd r2) /\ s_conns (snd r1) = s_conns (snd r2).
 Proof.
   intros Hn Hv Hc. cbv zeta. unfold h_evalsha, str_arg. rewrite Hv, Hc. unfold evalsha_db.
-  destruct (normal_command t s c 0 _ None) as [r s1]. repeat split.
+  destruct (normal_command t s c dbi _ None) as [r s1]. repeat split.
 Qed.
 
 (** ---- a script that calls one catalogue command = the direct command, converted ---- *)
@@ -328,16 +363,18 @@ Definition single_call (pc : bool) (l : list bytes) : script :=
 Theorem call_same_as_direct now d keys argv pc nm args r d' :
   forallb utf8_valid (nm :: args) = true ->
   In (upper nm) Exec.catalogue ->
-  ExecFacts.known now d (upper nm) args = false ->
-  exec_db now d (upper nm) (ExecFacts.bulks (nm :: args)) None = Some (r, d') ->
+  (* the database both paths work on: after the lazy expiry that precedes every command *)
+  let d0 := fst (expire_before now d (upper nm) (ExecFacts.bulks (nm :: args))) in
+  ExecFacts.known now d0 (upper nm) args = false ->
+  exec_db now d0 (upper nm) (ExecFacts.bulks (nm :: args)) None = Some (r, d') ->
   run_script now d keys argv (single_call pc (nm :: args)) =
     (match resp_to_lua pc r with CVal v => lua_to_resp v | CErr => r_err end, d').
 Proof.
-  intros Hv Hin Hk Hd.
-  pose proof (ExecFacts.parity now d nm args Hv Hin Hk) as P. rewrite Hd in P. inversion P as [P'].
+  intros Hv Hin d0 Hk Hd.
+  pose proof (ExecFacts.parity now d0 nm args Hv Hin Hk) as P. rewrite Hd in P. inversion P as [P'].
   unfold run_script, single_call. cbn [s_body s_ret run_body].
   unfold call_cmd. rewrite (marshal_strs _ _ Hv). rewrite (in_catalogue_not_blocked _ Hin).
-  unfold ExecFacts.bulks in P'. cbn [map] in P' |- *. rewrite P'.
+  subst d0. unfold ExecFacts.bulks in P'. cbn [map] in P' |- *. cbv zeta. rewrite P'.
   destruct (resp_to_lua pc r) as [v|]; [|reflexivity].
   cbn [app eval e_res nth1]. reflexivity.
 Qed.
